@@ -204,6 +204,10 @@ def run_params(prog, E=None, prefix="mpq_", rule="R-PARAMS"):
     E = E or Effects(prog)
     res = RuleResult(rule, "every settable parameter is copied by QScopy_prob and transferred by QScopy_prob_mpq_dbl / _mpf")
     setters = [prog.require_fn(prefix + "QSset_param"), prog.require_fn(prefix + "QSset_param_EGlpNum")]
+    # the progress reporter and its period are host settings of the problem as well
+    rep = prog.funcs.get(prefix + "QSset_reporter")
+    if rep is not None and rep.live is not None:
+        setters.append(rep)
     # fields written by the setters in the object of their first parameter
     S = set()
     consts = {}
@@ -255,6 +259,15 @@ def run_params(prog, E=None, prefix="mpq_", rule="R-PARAMS"):
                 p = apath(e[1][3][0])
                 if p[0] == "l" and p[1] == newobj:
                     written.add(fields_of(p[2]))
+            # a library routine that writes through a record of the new object handed to it (ILLstring_reporter_copy (&p2->qslp->reporter, ..))
+            g_ = prog.resolve(cp, e[1][1]) if e[1][1] else None
+            if g_ is not None:
+                for (k_, fp_) in E.W.get(g_.key, ()):
+                    if k_ < len(e[1][3]):
+                        p = apath(e[1][3][k_])
+                        if p[0] == "l" and p[1] == newobj:
+                            steps = p[2][:-1] if (p[2] and p[2][-1] == "&") else p[2]
+                            written.add(tuple(fields_of(steps)) + tuple(fp_))
     for fp in sorted(S):
         res.obligations += 1
         name = "/".join(x.split("::")[1] for x in fp)
